@@ -30,7 +30,7 @@ Place == {"first", "later", "all-agree", "all-conflict"}
 Mut(x) ==
    {[f |-> "idc", v |-> c] : c \in {"absent", "malformed"}} \cup {[f |-> "extra", v |-> TRUE]} \cup
    (IF x \in SecH \cup PropH THEN {[f |-> "name", v |-> n] : n \in {"a", "b", "a-2"}} ELSE {}) \cup
-   (IF x \in PropH THEN {[f |-> "named", v |-> FALSE], [f |-> "vtext", v |-> "comma"], [f |-> "vtext", v |-> "falsy"], [f |-> "vtext", v |-> "blankfirst"], [f |-> "vextra", v |-> TRUE], [f |-> "depval", v |-> TRUE]} \cup
+   (IF x \in PropH THEN {[f |-> "named", v |-> FALSE], [f |-> "vtext", v |-> "comma"], [f |-> "vtext", v |-> "newline"], [f |-> "vtext", v |-> "falsy"], [f |-> "vtext", v |-> "blankfirst"], [f |-> "vextra", v |-> TRUE], [f |-> "depval", v |-> TRUE]} \cup
                         {[f |-> "nvals", v |-> n] : n \in {0, 1, 3}} \cup
                         {[f |-> a, v |-> p] : a \in {"unit", "dtype", "uncertainty", "filename", "definition", "reference"}, p \in Place} \cup
                         {[f |-> "dtype", v |-> "binary"]}
